@@ -13,6 +13,7 @@ import KiraModel.Proofs.EffectsBProbe
 import KiraModel.Proofs.EffectsBReverb
 import KiraModel.Proofs.EffectsBLines
 import KiraModel.Proofs.EffectsBLinear
+import KiraModel.Proofs.EffectsBReverbLinear
 
 namespace K
 open Delay LineFx
@@ -243,6 +244,35 @@ theorem C13_reverb_low_rate_faults (r : Reverb ℝ) (x : Frame ℝ) (dt : ℝ) (
     · left
       simp [AllPass.WF, AllPass.new, hadj]
   simp only [Reverb.process, Reverb.init, Reverb.frames, ReverbLines.frame_err _ hbad]
+
+/-- **superposition (reverb).**  `Reverb.plus` adds, slot by slot, the contents of the 24 lines (and the
+    comb low-pass stores) of two reverbs that share their parameters (`SameControls`) and whose lines have the
+    same sizes and indices (`ReverbLines.Compat`: e.g. both initialised at the same sample rate and fed
+    equally many frames).  For any parameter states (tweening included) and any slicing: if the runs on `x1`
+    and `x2` succeed, the run of the summed reverb on `x1 + x2` succeeds, outputs the sum of the outputs and
+    ends in the sum of the final states (which are compatible again, so the statement iterates over calls). -/
+theorem C13_reverb_linear (r1 r2 : Reverb ℝ) (hsame : Reverb.SameControls r1 r2) (l1 l2 : ReverbLines ℝ)
+    (hs1 : r1.state = some l1) (hs2 : r2.state = some l2) (hc : ReverbLines.Compat l1 l2)
+    (x1 x2 : List (Frame ℝ)) (hx : x1.length = x2.length) (dt : ℝ) (info : Info ℝ)
+    (r1' r2' : Reverb ℝ) (o1 o2 : List (Frame ℝ))
+    (h1 : r1.process x1 dt info = .ok (r1', o1)) (h2 : r2.process x2 dt info = .ok (r2', o2)) :
+    (Reverb.plus r1 r2).process (fadd x1 x2) dt info = .ok (Reverb.plus r1' r2', fadd o1 o2)
+      ∧ Reverb.SameControls r1' r2'
+      ∧ ∃ l1' l2', r1'.state = some l1' ∧ r2'.state = some l2' ∧ ReverbLines.Compat l1' l2' :=
+  Reverb.process_add r1 r2 hsame l1 l2 hs1 hs2 hc x1 x2 hx dt info r1' r2' o1 o2 h1 h2
+
+/-- **scaling (reverb).**  Scaling every slot and the input by `k` scales the output and the final state by
+    `k`, for any parameter states. -/
+theorem C13_reverb_homogeneous (k : ℝ) (r : Reverb ℝ) (x : List (Frame ℝ)) (dt : ℝ) (info : Info ℝ)
+    (r' : Reverb ℝ) (o : List (Frame ℝ)) (h : r.process x dt info = .ok (r', o)) :
+    (Reverb.times k r).process (fsmul k x) dt info = .ok (Reverb.times k r', fsmul k o) :=
+  Reverb.process_smul k r x dt info r' o h
+
+/-- non-vacuity: a freshly initialised network is compatible with itself at every sample rate -/
+example (sr : ℕ) : ReverbLines.Compat (ReverbLines.init sr : ReverbLines ℝ) (ReverbLines.init sr) := by
+  constructor
+  · exact List.forall₂_same.mpr (fun p _ => ⟨⟨rfl, rfl⟩, ⟨rfl, rfl⟩⟩)
+  · exact List.forall₂_same.mpr (fun p _ => ⟨⟨rfl, rfl⟩, ⟨rfl, rfl⟩⟩)
 
 /-! ## Boundedness of the lines (BIBO) -/
 
